@@ -5,8 +5,12 @@
 (* SimpleNodes.reduce was run for a family of seeds, under two id          *)
 (* assignments (ord1 / ord2 = the names in ascending order of their real   *)
 (* ids) and twice each (r1a,r1b / r2a,r2b: selected sets per seed, as      *)
-(* bit masks over the names a,b,c,d,e).  The invariants evaluate the       *)
-(* operators of Reduce.tla on the recorded results.                        *)
+(* bit masks over the names a,b,c,d,e).  s1a,s1b / s2a,s2b: the "one view  *)
+(* change in one process" pass - per seed the neighbouring layout (the     *)
+(* other selection of the view change) and then this layout twice are      *)
+(* reduced back to back with the SAME seed; first / second result on this  *)
+(* layout.  The invariants evaluate the operators of Reduce.tla on the     *)
+(* recorded results.                                                       *)
 (***************************************************************************)
 EXTENDS TraceLib, Reduce
 
@@ -34,6 +38,7 @@ Res(f) == [s \in SeedIdx |-> FromMask(f[s])]
 \* the distinct results over all seeds, assignments and runs / of one run
 Distinct(f) == {FromMask(m) : m \in {f[s] : s \in SeedIdx}}
 AllDistinct == Distinct(ev.r1a) \cup Distinct(ev.r1b) \cup Distinct(ev.r2a) \cup Distinct(ev.r2b)
+               \cup Distinct(ev.s1a) \cup Distinct(ev.s1b) \cup Distinct(ev.s2a) \cup Distinct(ev.s2b)
 
 (* exactly min(limit, |candidates|) of the candidates, and that number is what the call returns *)
 C39_Exact == IsR => /\ \A R \in AllDistinct : Exact(R, Cands, ev.limit)
@@ -44,6 +49,10 @@ C39_PrevQuota == IsR => \A R \in AllDistinct : QuotaKept(R, Cands, Stake, Prev, 
 C39_StakeOrdered == IsR => \A R \in AllDistinct : StakeOrdered(R, Cands, Stake, Prev, ev.limit, ev.pct)
 (* identical result for identical inputs (independent of map insertion / iteration order) *)
 C39_Deterministic == IsR => ev.r1a = ev.r1b /\ ev.r2a = ev.r2b
+(* ... and independent of the calls made before in the same process: the result is a function of *)
+(* (candidates, previous set, limit, percentage, seed) = Reduce.tla's Reduce, which has no history *)
+C39_HistoryFree == IsR => /\ ev.s1a = ev.r1a /\ ev.s1b = ev.r1a
+                          /\ ev.s2a = ev.r2a /\ ev.s2b = ev.r2a
 (* among the candidates tied at the cut the seed alone decides: none is in (or out) for every seed *)
 C39_TieBySeedOnly == (IsR /\ ~IsKnown(ev)) =>
                     /\ TieBySeedOnly(Distinct(ev.r1a), Cands, Stake, Prev, ev.limit, ev.pct)
@@ -54,4 +63,6 @@ C39_RelabelInvariant == IsR => RelabelInvariant(Res(ev.r1a), ev.ord1, Res(ev.r2a
 (* the driver really used two different canonical orders and enough seeds *)
 HarnessTwoOrders == IsR => (Len(ev.stake) >= 2 => ev.ord1 # ev.ord2) /\ Len(ev.r1a) >= 8
                            /\ Len(ev.r1b) = Len(ev.r1a) /\ Len(ev.r2a) = Len(ev.r1a) /\ Len(ev.r2b) = Len(ev.r1a)
+                           /\ Len(ev.s1a) = Len(ev.r1a) /\ Len(ev.s1b) = Len(ev.r1a)
+                           /\ Len(ev.s2a) = Len(ev.r1a) /\ Len(ev.s2b) = Len(ev.r1a)
 =============================================================================
